@@ -191,6 +191,12 @@ func histVerdicts(ops []histOp) []string {
 			fresh = append(fresh, op)
 			_, fr := execHistory(fresh)
 			fres, fout := fr.results[len(fresh)-1], fr.outputs[len(fresh)-1]
+			// which analysis error is reported may depend on WHEN a configuration call (CSPCompatible) was made
+			// relative to the first, failing, execution (the failure is sticky): two analysis errors with nothing
+			// written count as the same result
+			sameRes := func(a, b string) bool {
+				return a == b || (strings.HasPrefix(a, "escape:") && strings.HasPrefix(b, "escape:"))
+			}
 			// projection on the op's own name space chain
 			pres, psame := "-", "-"
 			if !weird && ns >= 0 {
@@ -326,7 +332,7 @@ func histVerdicts(ops []histOp) []string {
 				rep = b01(run.results[k-1] == res && run.outputs[k-1] == out)
 			}
 			verdicts = append(verdicts, fmt.Sprintf("%d|%s|%d|fresh:%s:%s|proj:%s:%s|sticky:%s|shared:%s|opening:%s|tohtml:%s|rep:%s",
-				k, res, len(out), fres, b01(fres == res && fout == out), pres, psame, sticky, strings.Join(shared, ","), strings.Join(opening, ","), tohtml, rep))
+				k, res, len(out), fres, b01(sameRes(fres, res) && fout == out), pres, psame, sticky, strings.Join(shared, ","), strings.Join(opening, ","), tohtml, rep))
 		case (op.kind == "P" || op.kind == "C") && panickedBefore(k):
 			// what a set does after an API call has panicked is C08's business
 		case op.kind == "P" && run.results[k] != "badop":
@@ -348,7 +354,7 @@ func histVerdicts(ops []histOp) []string {
 					executed = true
 				}
 			}
-			if executed {
+			if executed && !isDetached(op.h, k) {
 				verdicts = append(verdicts, fmt.Sprintf("C%d:%s", k, b01(run.results[k] == "cannotclone")))
 			}
 		}
